@@ -8,7 +8,17 @@ from typing import Any, Callable, Dict, List, Optional, Tuple
 import z3
 
 from ..report import CONTROL, INCONCLUSIVE, PROVED
+import os
+import zlib
+
+from ..smt import cvc5_check
 from .scalar import Ctx, PathLimit, explore, integer_model, portfolio, _model_dict
+
+
+def _diff_sample(name: str) -> bool:
+    """deterministic sample of proved obligations that are re-decided by cvc5 (every 16th in quick, every 3rd in thorough)"""
+    k = 3 if os.environ.get("VERIF_TIER_EFFECTIVE", "quick") == "thorough" else 16
+    return zlib.crc32(name.encode()) % k == 0
 
 Replay = Callable[[str, Dict[str, Any], Any], Tuple[bool, str]]
 
@@ -100,9 +110,16 @@ def _one(pid: str, pname: str, c: Ctx, ob: Dict[str, Any], replay: Optional[Repl
                                     "witness": _model_dict(c, model) if ok else None}, "queries": queries})
             return
         if st == "unsat":
-            recs.append({"type": "obligation", "name": name, "status": PROVED, "secs": total, "queries": queries,
-                         "detail": {"kind": ob["kind"], "excluded_known": [str(e) for e in excluded] or None,
-                                    "smt": _short(ob["claim"])}})
+            detail = {"kind": ob["kind"], "excluded_known": [str(e) for e in excluded] or None, "smt": _short(ob["claim"])}
+            if _diff_sample(name) and not z3.is_false(z3.simplify(z3.Not(ob["claim"]))):
+                r2, s2 = cvc5_check(cs, 5.0)
+                recs.append({"type": "diff", "result": r2, "secs": s2})
+                detail["cvc5"] = r2
+                if r2 == "sat":
+                    recs.append({"type": "obligation", "name": name, "status": INCONCLUSIVE, "secs": total, "queries": queries,
+                                 "detail": f"solvers disagree: z3 unsat, cvc5 sat on {_short(ob['claim'])}"})
+                    return
+            recs.append({"type": "obligation", "name": name, "status": PROVED, "secs": total, "queries": queries, "detail": detail})
             return
         if st == "sat" and ob.get("tol") is not None:
             st2, _, secs2 = portfolio(base + excluded + [z3.Not(ob["tol"])], timeout_s)
